@@ -60,6 +60,26 @@ def decl_runs(prop, o, meta, only=None):
     return v
 
 
+def chain_runs(prop, o, meta, only=None):
+    """Every chain of Chains.tla (-> and <-> without parentheses) through constraint!, expr! and the text,
+    judged by ChainsTrace.tla against the reference reading of common/Pratt.tla."""
+    if only:
+        cases = list(only)
+    else:
+        cases, g, d = core.gen_cases(SPEC_DIR, "Chains.tla", "Chains.cfg", "chains", workers=2)
+        meta["chains"] = {"cases": len(cases), "gen_states": d, "gen_transitions": g}
+        for i, c in enumerate(cases):
+            c["id"] = f"L{i}"
+    events = core.rv_parallel("chains", cases, prop + "-chains", procs=4)
+    v = core.validate(SPEC_DIR, "ChainsTrace.tla", "ChainsTrace.cfg", events, prop, prop + "-chains", chunks=4)
+    byid = {e["id"]: e for e in events}
+    for r in v.rejects:
+        ev = byid.get(r[2], {})
+        o.violation(f"chain:{r[3]}:{ev.get('chain')}", {k: ev.get(k) for k in ("id", "ops", "forms", "tokens", "chain", "text")},
+                    f"{r[3]}\n  {ev.get('chain')}")
+    return v
+
+
 def plans():
     out, meta = {}, {}
     for n in (0, 1, 2):
@@ -235,7 +255,7 @@ def check(tier, seed, replay=None):
     o = core.Outcome(prop, tier, seed)
     core.build_harness()
     meta = {}
-    pipe_only = decl_only = None
+    pipe_only = decl_only = chain_only = None
     if replay:
         c = json.load(open(replay))
         cases = [c]
@@ -243,6 +263,8 @@ def check(tier, seed, replay=None):
             pipe_only, cases = [c], []
         elif "declared" in c:
             decl_only, cases = [c], []
+        elif "chain" in c:
+            chain_only, cases = [c], []
     else:
         pl, meta = plans()
         cs, g, d = core.gen_cases(lin.SPEC_DIR, "ModelGen.tla", "GenG.cfg", "genG", workers=8)
@@ -296,13 +318,15 @@ def check(tier, seed, replay=None):
         o.violation(f"{r[3]}:{c.get('text')}", c, f"{r[3]}\n{c.get('text')}\nplan={[(x['call'], x['n'], x['obj']) for x in c.get('plan', {}).get('calls', [])]} -> {res.get('out')} {res.get('kind','')} {res.get('why','')[:150]}")
     pv, pev = (None, []) if (replay and not pipe_only) else pipe_runs(prop, o, meta, pipe_only)
     dv = None if (replay and not decl_only) else decl_runs(prop, o, meta, decl_only)
+    cv = None if (replay and not chain_only) else chain_runs(prop, o, meta, chain_only)
     same = sum(1 for s in v.stats if s[3] == 1)
     samples = [{"text": c["text"], "plan": [(x["call"], x["n"], x["obj"]) for x in c["plan"]["calls"]], "expected_objective": c["plan"]["expected"]} for c in cases[::max(1, len(cases) // 3)]][:3]
     o.level = "model_checking"
     o.coverage = {
         "states": v.distinct + (pv.distinct if pv else 0) + sum(m.get("gen_states", 0) for m in meta.values()),
         "transitions": v.generated + (pv.generated if pv else 0) + sum(m.get("gen_transitions", 0) for m in meta.values()),
-        "traces_validated_against_impl": len(v.stats) + (len(pv.stats) if pv else 0) + (len(dv.stats) if dv else 0),
+        "traces_validated_against_impl": len(v.stats) + (len(pv.stats) if pv else 0) + (len(dv.stats) if dv else 0) + (len(cv.stats) if cv else 0),
+        "logic_chains_through_macros": {"validated": len(cv.stats) if cv else 0},
         "declarations": {"validated": len(dv.stats) if dv else 0, "valid": sum(1 for s_ in (dv.stats if dv else []) if s_[4] == 1)},
         "pipe_runs": {"validated": len(pv.stats) if pv else 0,
                       "well_typed": sum(1 for s_ in (pv.stats if pv else []) if s_[2] == "ok"),
